@@ -225,8 +225,14 @@ func TestVerifDelayFilterFree(t *testing.T) {
 	defer tr.Close()
 	rng := rand.New(rand.NewSource(vrt.Seed())) //nolint:gosec
 	n := vrt.EnvInt("VERIF_N", 400)
-	for _, dus := range []int{0, 1, 500, 2000, 10000} {
+	for _, dus := range []int{0, 1, 500, 2000, 10000, 20000} {
 		for _, producers := range []int{1, 2} {
+			// the last delay value is the burst pattern: a little traffic, a pause, then everything else
+			// back to back, so that well over a hundred datagrams are held by the filter at once
+			burst := dus == 20000
+			if burst && producers == 2 {
+				continue
+			}
 			rec := newRecNIC()
 			delay := time.Duration(dus) * time.Microsecond
 			f, _ := NewDelayFilter(rec, delay)
@@ -268,7 +274,7 @@ func TestVerifDelayFilterFree(t *testing.T) {
 						next++
 						id := next
 						c := rec.mk(r, id, r.Intn(200))
-						if r.Intn(3) == 0 {
+						if !burst && r.Intn(3) == 0 {
 							// a chunk that has been under way for a while (e.g. through a router) before it
 							// reaches the filter: the delay counts from its arrival at the filter
 							c.setTimestamp()
@@ -294,6 +300,22 @@ func TestVerifDelayFilterFree(t *testing.T) {
 							mu.Unlock()
 						}
 						arrMu.Unlock()
+						if burst {
+							switch {
+							case id < 10:
+								time.Sleep(time.Millisecond)
+							case id == 10:
+								time.Sleep(3 * delay)
+							}
+							mu.Lock()
+							dead := panicked
+							mu.Unlock()
+							if dead {
+								return
+							}
+
+							continue
+						}
 						switch r.Intn(4) {
 						case 0:
 							time.Sleep(delay)
@@ -351,6 +373,21 @@ func TestVerifDelayFilterFree(t *testing.T) {
 // ---------------------------------------------------------------- Router MinDelay, virtual time
 
 // TestVerifRouterDelay: two hosts on one router with MinDelay (and optional jitter); exact virtual time.
+// verifIPOf returns the address the router gave the host.
+func verifIPOf(nw *Net) net.IP {
+	ifc, err := nw.InterfaceByName("eth0")
+	if err != nil {
+		panic(err)
+	}
+	addrs, _ := ifc.Addrs()
+	for _, a := range addrs {
+		if ipn, ok := a.(*net.IPNet); ok {
+			return ipn.IP
+		}
+	}
+	panic("verif: host without an address")
+}
+
 func TestVerifRouterDelay(t *testing.T) {
 	tr := vrt.Open()
 	defer tr.Close()
@@ -370,9 +407,28 @@ func TestVerifRouterDelay(t *testing.T) {
 			}
 			n1, _ := NewNet(&NetConfig{})
 			n2, _ := NewNet(&NetConfig{})
-			_ = router.AddNet(n1)
+			// every third run: the sender sits behind a second router with the same minimum delay (a LAN
+			// behind a NAT): the datagram is delayed by each router it crosses
+			chain := k%3 == 2
+			total := dus
+			if chain {
+				lan, err := NewRouter(&RouterConfig{
+					CIDR: "192.168.0.0/24", MinDelay: time.Duration(dus) * time.Microsecond,
+					StaticIPs: []string{"10.0.0.100"}, LoggerFactory: logging.NewDefaultLoggerFactory(),
+				})
+				if err != nil {
+					t.Fatal(err)
+				}
+				_ = lan.AddNet(n1)
+				if err := router.AddRouter(lan); err != nil {
+					t.Fatal(err)
+				}
+				total = 2 * dus
+			} else {
+				_ = router.AddNet(n1)
+			}
 			block := 0
-			if k%2 == 1 && dus > 1 {
+			if k%2 == 1 && dus > 1 && !chain {
 				block = []int{dus / 2, dus * 6 / 10, dus}[rng.Intn(3)]
 				_ = router.AddNet(&slowNIC{Net: n2, d: time.Duration(block) * time.Microsecond})
 			} else {
@@ -381,17 +437,17 @@ func TestVerifRouterDelay(t *testing.T) {
 			if err := router.Start(); err != nil {
 				t.Fatal(err)
 			}
-			c1, err := n1.ListenUDP("udp4", &net.UDPAddr{IP: net.ParseIP("10.0.0.1"), Port: 1111})
+			c1, err := n1.ListenUDP("udp4", &net.UDPAddr{IP: verifIPOf(n1), Port: 1111})
 			if err != nil {
 				t.Fatal(err)
 			}
-			c2, err := n2.ListenUDP("udp4", &net.UDPAddr{IP: net.ParseIP("10.0.0.2"), Port: 2222})
+			c2, err := n2.ListenUDP("udp4", &net.UDPAddr{IP: verifIPOf(n2), Port: 2222})
 			if err != nil {
 				t.Fatal(err)
 			}
 			base := time.Now()
 			var mu sync.Mutex
-			tr.Emit(vrt.M{"ev": "reset", "delay": dus, "scenario": fmt.Sprintf("router-%d-j%d", dus, jus)})
+			tr.Emit(vrt.M{"ev": "reset", "delay": total, "scenario": fmt.Sprintf("router-%d-j%d-chain%v", dus, jus, chain)})
 			want := map[int][]byte{}
 			var rwg sync.WaitGroup
 			rwg.Add(1)
@@ -449,7 +505,7 @@ func TestVerifRouterDelay(t *testing.T) {
 					}
 				}
 			}
-			time.Sleep(time.Duration(dus+jus*n+block*(n+1)+1000) * time.Microsecond)
+			time.Sleep(time.Duration(total+jus*n+block*(n+1)+1000) * time.Microsecond)
 			synctest.Wait()
 			mu.Lock()
 			tr.Emit(vrt.M{"ev": "rest"})
